@@ -149,6 +149,22 @@ func (matrix *DenseFloat64Matrix) SLICE(rfrom, rto, cfrom, cto int) *DenseFloat6
   m.cols = cto - cfrom
   return &m
 }
+func (matrix *DenseFloat64Matrix) AsDenseFloat64Vector() DenseFloat64Vector {
+  if matrix.rows < matrix.rowMax || matrix.cols < matrix.colMax {
+    // matrix is a slice of a larger matrix, return the elements
+    // of the slice
+    n, m := matrix.Dims()
+    v := make([]float64, n*m)
+    for i := 0; i < n; i++ {
+      for j := 0; j < m; j++ {
+        v[i*m + j] = matrix.values[matrix.index(i, j)]
+      }
+    }
+    return DenseFloat64Vector(v)
+  } else {
+    return DenseFloat64Vector(matrix.values)
+  }
+}
 /* matrix interface
  * -------------------------------------------------------------------------- */
 func (matrix *DenseFloat64Matrix) CloneMatrix() Matrix {
@@ -250,7 +266,7 @@ func (matrix *DenseFloat64Matrix) Tip() {
   matrix.rowMax, matrix.colMax = matrix.colMax, matrix.rowMax
 }
 func (matrix *DenseFloat64Matrix) AsVector() Vector {
-  return DenseFloat64Vector(matrix.values)
+  return matrix.AsDenseFloat64Vector()
 }
 func (matrix *DenseFloat64Matrix) storageLocation() uintptr {
   return uintptr(unsafe.Pointer(&matrix.values[0]))
@@ -339,7 +355,7 @@ func (matrix *DenseFloat64Matrix) IsSymmetric(epsilon float64) bool {
   return true
 }
 func (matrix *DenseFloat64Matrix) AsConstVector() ConstVector {
-  return DenseFloat64Vector(matrix.values)
+  return matrix.AsDenseFloat64Vector()
 }
 /* implement ScalarContainer
  * -------------------------------------------------------------------------- */
